@@ -12,7 +12,7 @@ RULE = ("histories with 2-5 consumers of the same queue (same and different topi
         "ack / nack / reject / requeue by the holder, shutdown (finish) of one consumer while others hold messages, cancelled "
         "calls; distinct by the printed Coq op list; non-trivial = at least two consumers received messages and one message was "
         "delivered twice (after a return) or a consumer finished while another held a message")
-TRUSTED = ["in-memory broker only; Redis and RabbitMQ clients are not covered by this revision of the check",
+TRUSTED = ["brokers: in-memory (concurrent histories, cancellation), Redis client over harness/fakeredis.py = coq/RedisSrv.v (sequential histories of one client), RabbitMQ client over harness/fakeamqp.py = coq/AmqpSrv.v (sequential histories, fixed callback schedule); RedisSrv.v and AmqpSrv.v are descriptions of the servers written from their documentation, not compared with real servers (none available)",
            "all consumers live in one process and one event loop (the in-memory broker cannot be shared otherwise)"]
 ASSUMPTIONS = ["clients are well-behaved (fresh ids, terminal actions by the holder on held messages)"]
 WHICH = {"C14"}
